@@ -74,7 +74,7 @@ def run(ctx: Ctx) -> None:
             % (info['model_distinct'], info['model_depth'], info['defect_config_violates']))
     # binding 2: behaviours of the model replayed into the real scheduler (validated like every other scenario)
     mscs, predicted = sm.model_scenarios(ctx)
-    traces = run_traces(ctx, OWN, scenarios + mscs)
+    traces = run_traces(ctx, OWN, scenarios + mscs + qf.d26_scenarios())
     d = sm.drift(traces, predicted)
     for x in d[:5]:
         print('MODEL-DRIFT property=C10 scenario=%s real query instants %s, model predicts %s (evidence, not a verdict: the '
